@@ -137,7 +137,7 @@ theorem exec_ok (hashOf : List β → H) (lg : List (LBackup β)) (group : List 
   have wf := ctx.wf
   have hgrp : group[t]? = some (render hashOf lt) := hG _ _ hlt
   -- the target step
-  obtain ⟨st1, seen1, h1, inv1⟩ := target_entries hashOf lt.stored lt.es F0 p.externFiles ctx lt.es [] _ [] rfl
+  obtain ⟨st1, seen1, h1, inv1⟩ := target_entries hashOf lt.stored lt.pad lt.es F0 p.externFiles ctx lt.es [] _ [] rfl
     (tinv_init lt.stored lt.es F0 p.externFiles ctx.extNodup)
   have hall : F0.all (fun f => seen1.contains f.1) = true := by
     rw [List.all_eq_true]
